@@ -301,7 +301,6 @@ let rknown_class (prog : rstmt list) : string =
     let low_has f = match lowered with RLOk (_, ps) -> List.exists f ps | RLPanic -> false in
     if not fix2 && (m.rpanic || lowered = RLPanic) then "BAD:empty_domain_panic "   (* repaired: the model never panics *)
     else if (match lowered with RLOk (s, ps) -> rvalidate s ps = Some VInvalidDomain && (aux_oversize s || not (List.exists (fun d -> d = []) s)) | RLPanic -> false) then "BAD:oversize_domain "
-    else if List.exists (fun c -> kf_or_not (fold_cons c)) cs then "BAD:or_not "
     else if low_has (function PB (PLinEq (c, x, _)) | PB (PLinLe (c, x, _)) -> all_zero c x | _ -> false) then "BAD:lin_zero_coeffs "
     else if low_has (function PB (PMod (_, _, _)) -> (match lowered with RLOk (s, ps) -> rvalidate s ps = Some VInvalidConstraint | _ -> false) | _ -> false) then "BAD:mod_rejected "
     else ""
